@@ -27,6 +27,12 @@ def run(ctx):
     suites.apply_pred(ctx, "C09-unpickled-twin", "c09_pred", outs,
                       lambda k, i: outs[k][i] + " " + outs2[k][i],
                       lambda k, i: {"program": progs[i], "direct": outs[k][i], "twin": outs2[k][i]}, kf=core.kf_list(ctx))
+    # every accessor as the FIRST thing asked of a fresh (unpickled) copy: the same value as on the original, whatever
+    # the order in which a caller happens to look (implementation against itself)
+    fresh = core.check_suite(ctx, "C09-fresh-copy-per-accessor", [("observe_fresh", [2, p]) for p in progs], kinds=("py", "c"), compare=False)
+    suites.apply_pred(ctx, "C09-fresh-copy-per-accessor", "c09_pred", outs,
+                      lambda k, i: outs[k][i] + " " + fresh[k][i] if outs[k][i].startswith("[") else None,
+                      lambda k, i: {"program": progs[i], "direct": outs[k][i], "twin": fresh[k][i]}, kf=core.kf_list(ctx))
     # equality, hash, ordering between original and twin
     ok_idx = [i for i in range(len(progs)) if outs["py"][i].startswith("[")][: (3000 if ctx.quick else 40000)]
     cmps = core.check_suite(ctx, "C09-compare-twin", [("compare", [progs[i], twin[i]]) for i in ok_idx], split=True)
